@@ -395,6 +395,7 @@ func init() {
 				out = append(out, c17Scope(spSingle(enum.Eax, 3, 4, 2), true, 4, 0, 1))
 				out = append(out, c17Scope(spPair("B2", enum.Eax, 3, 3, 3, 4), false, 3, 3, 1))
 				out = append(out, c17Scope(spRects(enum.Eax, 3, 4), false, 4, 4, 2))
+				out = append(out, c17Scope(spTwoLevel(37, 11, 5), false, 4, 3, 1))
 				out = append(out, c17DetScope("passA", p33Alpha(enum.Eax), 3, 13), c17DetScope("passB", p33Alpha(enum.Eax), 3, 13))
 				return out
 			}
@@ -405,6 +406,7 @@ func init() {
 				out = append(out, c17Scope(spPair("B2", e, 3, 3, 3, 4), true, 3, 3, 1), c17Scope(spTwo(e, 3, 3, 4), true, 3, 0, 2))
 			}
 			out = append(out, c17Scope(spRects(enum.Eax, 4, 5), true, 4, 4, 2))
+			out = append(out, c17Scope(spTwoLevel(7, 3, 5), false, 4, 3, 1))
 			out = append(out, c17Scope(spPair("B2", enum.Ean, 3, 3, 3, 4), false, 3, 3, 1))
 			for _, e := range []enum.Embed{enum.Eax, enum.Eunit} {
 				out = append(out, c17DetScope("passA", p33Alpha(e), 3, 1), c17DetScope("passB", p33Alpha(e), 3, 1))
